@@ -50,6 +50,7 @@ CHECKS = {
         "tests": [
             {"name": "TestC15Cache", "checks": [3000, 10000], "shards": [2, 16], "floor": 0.8},
             {"name": "TestC15Short", "enum": True},
+            {"name": "TestC15Files", "checks": [400, 3000], "shards": [1, 8], "floor": 0.5},
             K,
         ],
         "assumptions": ["registrations while the cache is off and reads of registered names while the cache is off are outside the domain (the statement's clauses conflict there)",
